@@ -23,3 +23,50 @@ package tools
 //@   assumed
 //@   props C20 C13
 //@   modifies fresh
+
+// C02: HashingReader.  Whatever Read hands to its caller without an error is
+// also absorbed by the hasher, in order, so the hasher's state is the preload
+// followed by exactly the bytes delivered.
+//@ func (*HashingReader).Read
+//@   props C02
+//@   requires @inv r.reader != nil && r.hasher != nil && is_sha256(r.hasher)
+//@   modifies bytes b, ghost rrest[r.reader], ghost wbuf[r.hasher]
+//@   dead return2
+//@   ensures result0 >= 0 && result0 <= len(b)
+//@   ensures bytesOf(b[0:result0]) == bsub(old(rrest(r.reader)), 0, result0)
+//@   ensures result1 == nil ==> wbuf(r.hasher) == scat(old(wbuf(r.hasher)), bytesOf(b[0:result0]))
+
+//@ func (*HashingReader).Hash
+//@   props C02
+//@   requires @inv r.hasher != nil
+//@   pure
+//@   ensures is_sha256(r.hasher) ==> result == hexsha(wbuf(r.hasher))
+
+//@ func NewHashingReader
+//@   props C02
+//@   modifies fresh
+//@   ensures result != nil && isfresh(result) && result.reader == r && result.hasher != nil && is_sha256(result.hasher) && wbuf(result.hasher) == ""
+
+//@ func NewHashingReaderPreloadHash
+//@   props C02
+//@   modifies fresh
+//@   ensures result != nil && isfresh(result) && result.reader == r && result.hasher == hash
+
+// Lemma (assumed; it follows from the contract of (*HashingReader).Read above
+// and from io.Copy calling nothing but Read and Write): copying from a
+// HashingReader into a file positioned at its end appends to the file exactly
+// the bytes the hasher absorbed.  lastcopy() names those bytes.
+//@ func CopyWithCallback
+//@   assumed
+//@   props C02
+//@   modifies ghost lastcopy, ghost wbuf, ghost rrest, ghost fdata[fpath(ptr_as(writer, "os.File"))]
+//@   ensures result1 == nil && dyntype(writer, "*os.File") && dyntype(reader, "*github.com/git-lfs/git-lfs/v3/tools.HashingReader") && old(rrest(writer)) == "" ==> fdata(fpath(ptr_as(writer, "os.File"))) == scat(old(fdata(fpath(ptr_as(writer, "os.File")))), lastcopy()) && wbuf(ptr_as(reader, "github.com/git-lfs/git-lfs/v3/tools.HashingReader").hasher) == scat(old(wbuf(ptr_as(reader, "github.com/git-lfs/git-lfs/v3/tools.HashingReader").hasher)), lastcopy())
+//@   ensures result1 == nil ==> rrest(writer) == ""
+
+// Moving a finished download into place: on success the destination has the
+// source's content; on failure the destination is untouched.
+//@ func RenameFileCopyPermissions
+//@   props C02 C09
+//@   modifies ghost fexists[srcfile], ghost fexists[destfile], ghost fdata[destfile]
+//@   ensures result == nil ==> fexists(destfile) && fdata(destfile) == old(fdata(srcfile))
+//@   ensures result != nil ==> fexists(destfile) == old(fexists(destfile)) && fdata(destfile) == old(fdata(destfile))
